@@ -286,16 +286,73 @@ func c15Loop(c *Ctx, h *handleModel) {
 		}
 		return !reachableFrom(b, map[*ssa.BasicBlock]bool{})[loopHeader]
 	}
+	// candidate tests: conditional exits of the loop in the controller itself, and the tests of a
+	// bool-returning helper whose `true` makes the controller leave the loop
+	type exitTest struct {
+		bo      *ssa.BinOp
+		anchor  ssa.Instruction // instruction of the controller at which the test takes place
+		resolve func(ssa.Value) ssa.Value
+	}
+	var tests []exitTest
+	ident := func(v ssa.Value) ssa.Value { return v }
 	for _, b := range process.Blocks {
 		ifi, ok := b.Instrs[len(b.Instrs)-1].(*ssa.If)
+		if !ok || !(leavesLoop(b.Succs[0]) && !leavesLoop(b.Succs[1])) {
+			continue
+		}
+		if bo, ok := ifi.Cond.(*ssa.BinOp); ok {
+			tests = append(tests, exitTest{bo, ifi, ident})
+			continue
+		}
+		call, ok := ifi.Cond.(*ssa.Call)
 		if !ok {
 			continue
 		}
-		bo, ok := ifi.Cond.(*ssa.BinOp)
-		if !ok {
+		callee := call.Call.StaticCallee()
+		if callee == nil || callee.Blocks == nil || callee.Pkg != process.Pkg {
 			continue
 		}
-		x, y := stripConv(bo.X), stripConv(bo.Y)
+		site := call
+		res := func(v ssa.Value) ssa.Value {
+			v = stripConv(v)
+			if u, ok := v.(*ssa.UnOp); ok && u.Op == token.MUL {
+				var defs []ssa.Value
+				resolveDefs(v, map[ssa.Value]bool{}, &defs)
+				if len(defs) == 1 {
+					v = defs[0]
+				}
+			}
+			if p, ok := v.(*ssa.Parameter); ok {
+				for i, q := range callee.Params {
+					if q == p && i < len(site.Call.Args) {
+						return site.Call.Args[i]
+					}
+				}
+			}
+			return v
+		}
+		for _, hb := range callee.Blocks {
+			hif, ok := hb.Instrs[len(hb.Instrs)-1].(*ssa.If)
+			if !ok {
+				continue
+			}
+			// true edge returns true
+			tb := hb.Succs[0]
+			ret, isRet := tb.Instrs[len(tb.Instrs)-1].(*ssa.Return)
+			if !isRet || len(ret.Results) != 1 {
+				continue
+			}
+			if v, isC := constBoolArg(ret.Results[0]); !isC || !v {
+				continue
+			}
+			if bo, ok := hif.Cond.(*ssa.BinOp); ok {
+				tests = append(tests, exitTest{bo, ifi, res})
+			}
+		}
+	}
+	for _, t := range tests {
+		bo := t.bo
+		x, y := stripConv(t.resolve(stripConv(bo.X))), stripConv(t.resolve(stripConv(bo.Y)))
 		var other ssa.Value
 		depthOnLeft := false
 		switch {
@@ -308,27 +365,23 @@ func c15Loop(c *Ctx, h *handleModel) {
 		}
 		afterPub := false
 		for _, sg := range signals {
-			if len(sg.Chain) == 0 && instrDominates(sg.Ins, ifi) || len(sg.Chain) > 0 && instrDominates(sg.Chain[0], ifi) && flatBefore(sg, flatEv{Ins: ifi}) {
+			if flatBefore(sg, flatEv{Ins: t.anchor}) {
 				afterPub = true
 			}
 		}
 		if v := callBehind(other, "V"); v != nil && bo.Op == token.EQL {
 			// uint(depth) == limit, limit from the request's optional depth limit
-			pv := c.provenance(process, other)
-			if leavesLoop(b.Succs[0]) && !leavesLoop(b.Succs[1]) {
-				depthTest = true
-				limitParam = v
-				_ = pv
-				if !afterPub {
-					stopBad = joinNonEmpty(stopBad, "the depth-limit test precedes the publication of the iteration")
-				}
+			depthTest = true
+			limitParam = v
+			if !afterPub {
+				stopBad = joinNonEmpty(stopBad, "the depth-limit test precedes the publication of the iteration")
 			}
 			continue
 		}
 		if md := callBehind(other, "MateDistance"); md != nil {
 			// mate distance <= depth  (or depth >= mate distance), leaving the loop when true
 			good := (!depthOnLeft && bo.Op == token.LEQ) || (depthOnLeft && bo.Op == token.GEQ)
-			if good && leavesLoop(b.Succs[0]) && !leavesLoop(b.Succs[1]) {
+			if good {
 				mateTest = true
 				if !afterPub {
 					stopBad = joinNonEmpty(stopBad, "the forced-mate test precedes the publication of the iteration")
@@ -347,6 +400,7 @@ func c15Loop(c *Ctx, h *handleModel) {
 							rv = defs[0]
 						}
 					}
+					rv = t.resolve(rv)
 					if ex, ok := rv.(*ssa.Extract); ok && ex.Tuple == ssa.Value(search) && ex.Index == 1 {
 						mateOnScore = true
 					}
